@@ -514,7 +514,11 @@ Warning: rounding to n-th business day not supported for input value");
 		switch (d.typ) {
 			unsigned int nw;
 		case DT_YWD:
-			if ((forw && d.ywd.c < tgt) ||
+			if (forw && nextp && d.ywd.c < tgt &&
+			    d.ywd.c == __get_isowk(d.ywd.y)) {
+				/* in the last week that stands in for TGT already */
+				goto next_year;
+			} else if ((forw && d.ywd.c < tgt) ||
 			    (!forw && d.ywd.c > tgt)) {
 				/* no year adjustment */
 				;
@@ -523,6 +527,7 @@ Warning: rounding to n-th business day not supported for input value");
 				 * next/prev date is requested */
 				;
 			} else if (forw) {
+			next_year:
 				/* years don't wrap around,
 				 * dt_dadd_y() keeps the Jan-01 offset right */
 				d = dt_dadd_y(d, 1);
